@@ -860,6 +860,55 @@ var witnesses = []witness{
 		}
 		return ""
 	}},
+	{id: "F94", props: []string{"C09", "C14", "C10"}, what: "with a node cache, a vacuum whose own commit failed left the vacuuming connection on nodes that were never stored", run: func(w *wEnv) string {
+		for fail := 0; fail < 3; fail++ {
+			t := fmt.Sprintf("t%d", fail)
+			var cl *fakes3.Client
+			sqlh.NextClient("w", func(c *fakes3.Client) { cl = c })
+			r := w.mk(t, "k primary key, a", sqlh.TableOpts{EntriesPerNode: 2, NodeCache: 1000, Prefix: t})
+			sqlh.NextClient("", nil)
+			if r != "ok" || cl == nil {
+				return "create: " + r
+			}
+			for k := 0; k < 16; k++ {
+				w.x("insert into "+t+" values(?,'v')", k*10)
+			}
+			w.x("insert into " + t + " values(55,'x')")
+			w.x("delete from " + t + " where k in (55, 30, 100)")
+			n, hit := 0, false
+			cl.Fault = func(idx, midx int, op, key string) error {
+				if op == "PUT" && strings.Contains(key, "/node/") {
+					n++
+					if n-1 == fail && !hit {
+						hit = true
+						return awserr.New("InternalError", "injected fault", nil)
+					}
+				}
+				return nil
+			}
+			err := s3db.Vacuum(context.Background(), t, time.Now().Add(time.Hour))
+			cl.Fault = nil
+			if !hit {
+				continue
+			}
+			if err == nil {
+				return "the vacuum whose node PUT failed reported success"
+			}
+			if e := wantEq(fmt.Sprintf("rows through the vacuuming connection after the failed vacuum (node PUT %d failed)", fail), w.q("select count(*) from "+t), i(14)); e != "" {
+				return e
+			}
+			if res := w.x("insert into " + t + " values(56,'again')"); res != "ok" {
+				return "the connection cannot write after the fault cleared: " + res
+			}
+			if err := s3db.Vacuum(context.Background(), t, time.Now().Add(time.Hour)); err != nil {
+				return "vacuum after the fault cleared: " + err.Error()
+			}
+			if e := wantEq("rows after the second vacuum", w.q("select count(*) from "+t), i(15)); e != "" {
+				return e
+			}
+		}
+		return ""
+	}},
 	{id: "F74", props: []string{"C15", "C02", "C06"}, what: "a write_time outside 1677..2262 was accepted and wrapped around", run: func(w *wEnv) string {
 		for _, ts := range []string{"9999-12-31 23:59:59", "2262-04-12 00:00:00", "1600-01-01 00:00:00", "1000-01-01 00:00:00"} {
 			if r := w.x("update s3db_conn set write_time=?", ts); !strings.HasPrefix(r, "ERR") {
